@@ -29,6 +29,6 @@ def correspond(ctx):
 
 
 def replay(ctx, obj):
-    return lanes.replay_parts(ctx, obj, {"lanes": lanes.replay, "sync": c05_sync.replay})
+    return lanes.replay_parts(ctx, obj, {"lanes": lanes.replay, "words": lanewords.replay, "sync": c05_sync.replay})
 
 ASSUMPTIONS += list(c05_sync.ASSUMPTIONS)
